@@ -26,6 +26,16 @@ CHECKS = {
    "For generated chunk sizes, payload lengths at every chunk-boundary residue, channel depths 0..8, both compression settings and all five producer kinds, the concatenated pulled chunks must equal the producer's bytes, exactly the final chunk carries the end marker, an empty uncompressed payload is one empty final chunk, next after end/cancel/unknown id errors, and an injected producer failure surfaces as an error with no end marker and only a prefix delivered.",
    "chunk_bytes >= 1; chunk sizing itself (local engine policy) not asserted. Puller-level sub-checks over transports are added by c09_net.",
    "DESIGN.md §4 C09"),
+ "C05": ("fault_enumeration",
+   "generated fault/schedule scenarios (proptest) against scripted peers with tuned socket buffers; byte-exact stream-grammar oracle over the captured connection bytes",
+   "For concurrent writers (2..32, payloads straddling 8191/8192/8193/65535/65536/1-3 MiB) on all three clients, for the blocking client's write timeout against a stalled peer, for async/WebSocket calls abandoned mid-send, and for Server/AsyncServer write timeouts against a stalled reader, the captured byte stream must be whole images of distinct issued frames followed by at most one proper prefix and nothing after it. The WebSocket-server writers are covered by c05_ws.",
+   "Timing only selects which side of a race occurs; the oracle is timing-free. Payloads up to 12 MiB.",
+   "DESIGN.md §4 C05"),
+ "C06": ("fault_enumeration",
+   "enumerated fault x step grid plus proptest-generated fault cases against scripted TCP/WebSocket peers; watchdog-bounded 'must return' obligations; timeout/cancel races with a verif-hooks residue probe",
+   "For each client and each fault (close, RST, half-close, bad magic, length mismatch, truncated header, unallocatable length, partial response at 5 byte offsets then close/RST, WS text frame, WS protocol violation; optionally a peer that stays silent after the malformed frame) injected after j requests were read and a were answered with 0..16 calls in flight: every unanswered call and a later call must return Err within 10 s, the notify subscriber must see end-of-stream, and the pending map must be empty; timeout races (response at timeout +-5 ms, never answered, or task abort) must leave no residue and not disturb other calls.",
+   "Watchdog 10 s; either outcome accepted in a race; answered calls may fail after RST.",
+   "DESIGN.md §4 C06"),
  "C07": ("exploration",
    "property-based differential testing: owned vs borrowed vs context dispatch, with vs without middleware, shuffled registration programs; independent RFC 6901 tokenizer and prefix predicate as oracle for mounts",
    "Every built-in handler kind x body-format code x body shape is dispatched through handle / handle_with_ctx / handle_view behind 0..3 forwarding middlewares registered at shuffled positions and must give the same normalised response and handler observations as the middleware-free router, with each middleware running exactly once; recording struct and registry mounts at generated roots must be reached iff the path equals the root or extends it at '/', an exactly registered path wins, and the struct sees exactly the independent tokenizer's reference tokens for depths 0..40 (incl. 15/16/17).",
